@@ -337,11 +337,16 @@ func keyshareHashRule(P *Program, R *Report) {
 			kid = desc(st.Val)
 		}
 		okIss, okCnt := false, false
-		for _, s := range sinksOf(fn) {
-			if s.target == "new:gabi.publicKeyIdentifier.issuer" && desc(s.val) == "call:invoke:gabi.ProofBuilder.PublicKey(arg#0[#i]).Issuer" {
+		// (the identifier may be assembled by a helper that is handed the builder's key: seen with its parameter bound)
+		oldS := bindStructParams
+		bindStructParams = true // the key obtained from builder.PublicKey() keeps that identity inside the helper
+		deepSinks := sinksOfDeep(fn)
+		bindStructParams = oldS
+		for _, s := range deepSinks {
+			if s.target == "new:gabi.publicKeyIdentifier.issuer" && s.valDesc == "call:invoke:gabi.ProofBuilder.PublicKey(arg#0[#i]).Issuer" {
 				okIss = true
 			}
-			if s.target == "new:gabi.publicKeyIdentifier.counter" && desc(s.val) == "call:invoke:gabi.ProofBuilder.PublicKey(arg#0[#i]).Counter" {
+			if s.target == "new:gabi.publicKeyIdentifier.counter" && s.valDesc == "call:invoke:gabi.ProofBuilder.PublicKey(arg#0[#i]).Counter" {
 				okCnt = true
 			}
 		}
